@@ -54,6 +54,16 @@ def runOp (uid : Nat) (c : GClient) (op : String) : Option (GClient × String) :
       let st := step c (.fast f b)
       pure (st.client, showStep (resTag st.res) (framesOf uid st.sent) st.events)
     | _ => none
+  | 'M' :: rest => do
+    -- a raw x224 payload: `RdpClient::read` = mcs.read, then the global channel
+    let b ← ofHex (String.ofList rest)
+    match Mcs.read uid 1003 (.raw b) with
+    | .ok (.global, pl) =>
+      let st := step c pl
+      pure (st.client, showStep (resTag st.res) (framesOf uid st.sent) st.events)
+    | .ok (.user, _) => pure (c, showStep "E" [] [])
+    | .err _ => pure (c, showStep "E" [] [])
+    | .panic _ => pure (c, showStep "P" [] [])
   | 'T' :: rest => do
     let e ← parseInEvent (String.ofList rest)
     match clientTryWrite c e with
